@@ -25,10 +25,51 @@ Print Assumptions C01_code_tie_unpack.
 
 (* ---- the tie to the code: src/polyseed.c as TRANSLATED on this run (Gen/CApi.v) ---- *)
 From Coq Require Import String.
-From PS Require Import Base GFDefs PackDefs StoreDefs MiscDefs StrDefs LangDefs ApiDefs SpecDefs SpecApi GFProofs PackProofs StoreProofs RefineProofs CTieBase CTieLang CTiePhrase CTiePhraseEv CTieSplit CTieApi CTieDecode CTieEncode CTieLocals CTieInject CTieCmp CTieSearch CTieClosed CodeTheorems.
+From PS Require Import Base GFDefs PackDefs StoreDefs MiscDefs StrDefs LangDefs ApiDefs SpecDefs SpecApi GFProofs PackProofs StoreProofs RefineProofs RoundTrip CTieBase CTieLang CTiePhrase CTiePhraseEv CTieSplit CTieApi CTieDecode CTieEncode CTieLocals CTieInject CTieCmp CTieSearch CTieClosed CodeTheorems.
 From PS.Gen Require Import Consts PrivConsts Langs.
 From PS.Gen Require CFuns.
 From PS.Gen Require CApi.
+
+(* ON THE CODE: the phrase the translated polyseed_encode writes for a live seed of any reachable state, handed as a C string to the translated polyseed_decode_explicit (whose word search is the translated polyseed_lang_find_word), gives a new block holding the same struct - ties composed with C01_roundtrip_explicit; hypotheses: libc bsearch by contract, the injected normalisers (NormOK), fuel *)
+Theorem C01_code_tie_roundtrip :
+  forall (sgn : bool) (cs : state) (a : astate) (h : N) (d : data) (li : nat) 
+           (L : lang) (coin : N) (fuel : nat) (BS : Z -> list Z -> Z -> Z -> Z) (D : list Z -> list Z * Z)
+           (out0 : list Z) (gb gf : Z) (gs : list Z) (gc so0 : Z),
+         R cs a ->
+         heap_get (st_heap cs) h = Some d ->
+         nth_error langs li = Some L ->
+         coin < 2048 ->
+         spec_supported (as_mask a) (d_features d) = true ->
+         let dp := st_deps cs in
+         let P := published dp L (abs_data d) coin in
+         NormOK dp L (abs_data d) coin ->
+         no_nul P ->
+         (2050 <= fuel)%nat ->
+         (Datatypes.length P + 2 <= fuel)%nat ->
+         (forall (li0 : nat) (L0 : lang) (key : bytes),
+          nth_error langs li0 = Some L0 ->
+          no_nul key ->
+          BS (Z.of_nat li0) (zs key) 2048%Z
+            (CApi.get_comparer (flag (l_has_prefix L0)) (flag (l_has_accents L0)) (Z.of_nat li0)) =
+          enc (bsearch_loop 13 (fun j : nat => comparer sgn L0 key (nth j (l_words L0) [])) 0 LANG_SIZE_nat)) ->
+         (forall x : bytes, snd (dp_nfc dp x) < 2 ^ 64) ->
+         D (zs P) = (zs (fst (dp_nfkd dp P)), Z.of_N (snd (dp_nfkd dp P))) ->
+         no_nul (fst (dp_nfkd dp P)) ->
+         (Datatypes.length (fst (dp_nfkd dp P)) + 2 <= fuel)%nat ->
+         (1 <= Datatypes.length out0)%nat ->
+         exists (c1 : list CApi.cev) (rest : list Z) (n : Z) (c2 : list CApi.cev),
+           CApi.polyseed_encode fuel sgn (znfc dp) (fun _ i : Z => zs (nth (Z.to_nat i) (l_words L) []))
+             (fun _ : Z => zs (l_separator L)) (fun _ : Z => if l_compose L then 1%Z else 0%Z)
+             (Z.of_N (d_birthday d)) (Z.of_N (d_features d)) (map Z.of_N (d_secret d)) 
+             (Z.of_N (d_checksum d)) (Z.of_nat li) (Z.of_N coin) out0 = Some (c1, zs P ++ 0%Z :: rest, n) /\
+           CApi.polyseed_decode_explicit fuel sgn D (ext_code sgn fuel BS) (ptr (st_next cs))
+             CFuns.polyseed_mul2_table (Z.of_N (st_reserved cs)) (zs P) (Z.of_N coin) 
+             (Z.of_nat li) gb gf gs gc so0 =
+           Some
+             (c2, Z.of_N (d_birthday d), Z.of_N (d_features d), map Z.of_N (d_secret d), 
+              Z.of_N (d_checksum d), ptr (st_next cs), 0%Z).
+Proof. exact @code_roundtrip_explicit. Qed.
+Print Assumptions C01_code_tie_roundtrip.
 
 (* polyseed_encode as translated against the mirror step: the phrase written is the words of the 16 coefficients joined by the separator, composed when the language asks for it *)
 Theorem C01_code_tie_api_encode :
